@@ -296,12 +296,26 @@ FieldValue(F, N, fi) ==
     \* ... and after `map`: what the function returned
     IF fi \in F.mapped THEN {F.mres[CHOOSE j \in 1..Len(F.mres) : F.mres[j].fi = fi].v} ELSE UnmappedFieldValue(F, N, fi)
 
+\* JSON documents are compared modulo the order of object members (serde_json may keep them sorted); when a second value source
+\* presented a key twice, any of its occurrences may be the one that is kept (expected: a, observed: b)
+RECURSIVE DocEq(_, _)
+DocEq(a, b) ==
+    IF a.t # b.t THEN FALSE
+    ELSE CASE a.t = "seq" -> Len(a.e) = Len(b.e) /\ \A j \in 1..Len(a.e) : DocEq(a.e[j], b.e[j])
+           [] a.t = "map" -> /\ {a.e[j].k : j \in 1..Len(a.e)} = {b.e[j].k : j \in 1..Len(b.e)}
+                             /\ Cardinality({b.e[j].k : j \in 1..Len(b.e)}) = Len(b.e)
+                             /\ \A j \in 1..Len(b.e) : \E i \in 1..Len(a.e) : a.e[i].k = b.e[j].k /\ DocEq(a.e[i].v, b.e[j].v)
+           [] OTHER -> a = b
+JsonRVAgrees(doc, v) == v.r = "json" /\ Len(v.e) = 1 /\ DocEq(doc, v.e[1])
+
 \* does the observed success value v agree with what frame F must return?  (sets and maps are compared as sets)
 ValueAgrees(F, v) ==
     LET N == Nodes[F.n] IN
     CASE F.vst = "ok" -> v = F.fv                       \* what `validate` returned is what ends up in the result
       [] F.ph = "leafok" ->
-            IF N.c = "scalar" /\ Cls(N.name) = "float" THEN v.r = "float" ELSE v = F.okv
+            IF N.c = "scalar" /\ Cls(N.name) = "float" THEN v.r = "float"
+            ELSE IF N.c = "jvalue" THEN JsonRVAgrees(F.okv.e[1], v)
+            ELSE v = F.okv
       [] N.c \in {"vec", "arr", "tup"} ->
             v.r = "list" /\ Len(v.e) = Len(F.val.e) /\ \A i \in 1..Len(v.e) : v.e[i] = ResOf(F, Ob("elem", i))
       [] N.c \in {"hset", "bset"} ->
